@@ -171,7 +171,22 @@ class uamiv(ioapi_base):
                                       var_desc='Ending TFLAG'.ljust(80))
 
         self.SDATE, self.STIME = self.variables['TFLAG'][0, 0, :]
-        self.TSTEP = etflagv[0, 0, 1] - tflagv[0, 0, 1]
+        # the length of the first step as HHMMSS; the difference of the two
+        # HHMMSS numbers is not a duration (23:00 to 00:00 of the next day)
+        from datetime import datetime
+        bdate, btime = [int(x) for x in tflagv[0, 0, :]]
+        edate, etime = [int(x) for x in etflagv[0, 0, :]]
+
+        def hms2s(hms):
+            return hms // 10000 * 3600 + hms % 10000 // 100 * 60 + hms % 100
+        try:
+            ndays = (datetime.strptime('%07d' % edate, '%Y%j') -
+                     datetime.strptime('%07d' % bdate, '%Y%j')).days
+        except ValueError:
+            ndays = 0
+        nsec = ndays * 86400 + hms2s(etime) - hms2s(btime)
+        self.TSTEP = (nsec // 3600 * 10000 + nsec % 3600 // 60 * 100 +
+                      nsec % 60)
         if P_ALP is not None:
             self.P_ALP = P_ALP
         if P_BET is not None:
